@@ -66,6 +66,7 @@ def gen_workload(rng):
 
 def execute(runner, op, extra):
     m = op['m']
+    runner.clock.t = op.get('now', runner.clock.t)
     if m == 'dq_append':
         dq = extra['deque']
         dq.append(op['v'])
